@@ -126,7 +126,7 @@ class C05(Prop):
         salt = _salt(op, args)
         if op == "set.contains" and salt % 2:
             kinds = "v"
-        if op == "set.and" and salt % 3 == 0:
+        if op in ("set.and", "set.eq") and salt % 3 == 0:
             kinds = "str-operand"
         return G.real(op, args, kinds)
 
